@@ -408,12 +408,17 @@ pub fn mate_theme(t: &mut Tape) -> Option<Pos> {
 /// (quiescence) exceeds the 10,000-node polling interval and a stop / expired limit is first seen
 /// before any iteration has completed (the "panic move" path).
 pub fn storm_theme(t: &mut Tape) -> Option<Pos> {
+    storm_theme_sized(t, false)
+}
+
+/// `heavy`: 7-9 queens a side (depth 1 alone takes millions of nodes)
+pub fn storm_theme_sized(t: &mut Tape, heavy: bool) -> Option<Pos> {
     let mut p = Pos::empty();
     let wk = crate::refchess::sq(t.pick(8) as i32, 0);
     let bk = crate::refchess::sq(t.pick(8) as i32, 7);
     p.board[wk as usize] = Some(Pc::new(true, Kind::K));
     p.board[bk as usize] = Some(Pc::new(false, Kind::K));
-    let nq = 4 + t.pick(5);
+    let nq = if heavy { 7 + t.pick(3) } else { 4 + t.pick(5) };
     for white in [true, false] {
         for i in 0..nq {
             // queens mostly in the middle ranks, a few minor pieces to vary the exchanges
